@@ -150,6 +150,10 @@ Proof.
   cbn [map fst snd]. rewrite <- IH. reflexivity.
 Qed.
 
+Lemma strip_node' GS n :
+  strip GS n = Node 0 (kind n) (map (fun fx => (fst fx, strip_field GS (kind n) (fst fx) (snd fx))) (fields n)).
+Proof. destruct n. apply strip_node. Qed.
+
 Lemma strip_v_list GS l : strip_v GS (VList l) = VList (map (strip_v GS) l).
 Proof. reflexivity. Qed.
 
@@ -186,6 +190,19 @@ Proof.
   revert b. induction a as [|x a IH]; destruct b as [|y b]; cbn [names_eqb]; try discriminate; auto.
   intros H. apply andb_prop in H as [H1 H2]. apply String.eqb_eq in H1. subst. f_equal. auto.
 Qed.
+
+Lemma map_ext_names {A B C} (h1 : string -> A -> C) (h2 : string -> B -> C) :
+  forall (l1 : list (string * A)) (l2 : list (string * B)),
+    map fst l1 = map fst l2 ->
+    (forall f c x, In (f, c) l1 -> In (f, x) l2 -> h1 f c = h2 f x) ->
+    map (fun p => (fst p, h1 (fst p) (snd p))) l1 = map (fun p => (fst p, h2 (fst p) (snd p))) l2.
+Proof.
+  induction l1 as [|[f c] t IH]; intros [|[g x] t2] Hnm H; try discriminate; [reflexivity|].
+  cbn [map fst snd] in *. inversion Hnm; subst g. f_equal.
+  - f_equal. apply H; now left.
+  - apply IH; auto. intros f' c' x' Ha Hb. apply H; now right.
+Qed.
+
 
 (* ------------------------------------------------------------------ shape of a conversion result *)
 
@@ -463,18 +480,6 @@ Section Sim.
         cbn [bind]. exists 0. eexists. split; reflexivity.
     Qed.
 
-    Lemma map_ext_names {A B C} (h1 : string -> A -> C) (h2 : string -> B -> C) :
-      forall (l1 : list (string * A)) (l2 : list (string * B)),
-        map fst l1 = map fst l2 ->
-        (forall f c x, In (f, c) l1 -> In (f, x) l2 -> h1 f c = h2 f x) ->
-        map (fun p => (fst p, h1 (fst p) (snd p))) l1 = map (fun p => (fst p, h2 (fst p) (snd p))) l2.
-    Proof.
-      induction l1 as [|[f c] t IH]; intros [|[g x] t2] Hnm H; try discriminate; [reflexivity|].
-      cbn [map fst snd] in *. inversion Hnm; subst g. f_equal.
-      - f_equal. apply H; now left.
-      - apply IH; auto. intros f' c' x' H1 H2. apply H; now right.
-    Qed.
-
     Lemma sim_build : names_ok GS n = true ->
       exists f' y, run_build GS (conv Tt GS f') b2 xnode = Ok y /\ canon_v y = canon_v (VNode (strip GS n)).
     Proof.
@@ -484,28 +489,125 @@ Section Sim.
       { intros f2 c2 Hin. destruct (sim_set _ _ Hin) as (fa & y & E & _). eauto. }
       exists f'. unfold run_build. rewrite Ers. cbn [bind]. unfold mk_node. rewrite Hk, Hgsf. cbn [bind].
       eexists. split; [reflexivity|].
-      destruct n as [i k fs]. cbn [kind fields] in *. rewrite strip_node. cbn [canon_v]. f_equal.
+      rewrite strip_node'. cbn [canon_v]. f_equal.
       rewrite !canon_node. f_equal. rewrite !map_map. cbn [fst snd].
-      apply (map_ext_names (fun f c => canon_v (field_of ys f c)) (fun f x => canon_v (strip_field GS k f x))); auto.
+      apply (map_ext_names (fun f c => canon_v (field_of ys f c)) (fun f x => canon_v (strip_field GS (kind n) f x))); auto.
       intros f c x Hc Hx.
-      assert (Gx : get f (Node i k fs) = x) by (apply get_at; cbn [fields]; [now rewrite <- Hnames|exact Hx]).
+      assert (Gx : get f n = x) by (apply get_at; [now rewrite <- Hnames|exact Hx]).
       pose proof (Hfields _ _ Hc) as Hf. pose proof (run_sets_assoc _ _ _ _ _ Ers f) as R.
       unfold field_of.
       assert (Hset : forall c2, assoc f (b_sets b2) = Some c2 ->
-                exists v, assoc f ys = Some v /\ canon_v v = canon_v (strip_field GS k f x)).
+                exists v, assoc f ys = Some v /\ canon_v v = canon_v (strip_field GS (kind n) f x)).
       { intros c2 A2. rewrite A2 in R. destruct R as (v & Fv & Av). exists v. split; auto.
-        destruct (sim_set f c2 (assoc_In _ _ _ A2)) as (fa & y & Ea & Qa). cbn [kind] in Qa. rewrite Gx in Qa.
+        destruct (sim_set f c2 (assoc_In _ _ _ A2)) as (fa & y & Ea & Qa). rewrite Gx in Qa.
         (* both runs agree at the larger fuel *)
         pose proof (field_val_mono GS (conv Tt GS f') (conv Tt GS (Nat.max f' fa)) _ _ _
                       (fun g z w Hz => conv_mono _ _ _ _ _ _ _ (Nat.le_max_l f' fa) Hz) Fv) as M1.
         pose proof (field_val_mono GS (conv Tt GS fa) (conv Tt GS (Nat.max f' fa)) _ _ _
                       (fun g z w Hz => conv_mono _ _ _ _ _ _ _ (Nat.le_max_r f' fa) Hz) Ea) as M2.
         rewrite M1 in M2. inversion M2; subst. exact Qa. }
-      destruct (field_mode k f) eqn:Efm.
+      destruct (field_mode (kind n) f) eqn:Efm.
       - destruct Hf as (c2 & F & c1 & A2 & _). destruct (Hset _ A2) as (v & -> & Q). exact Q.
       - rewrite Hf in R. rewrite R. unfold strip_field. rewrite Efm.
         now rewrite (class_of_gsf f c ND1 Hc).
       - destruct (Hset _ Hf) as (v & -> & Q). exact Q.
     Qed.
   End Node.
+
+  Definition is_ml (c : cfun) : bool := match c with FMapList _ _ => true | _ => false end.
+
+  Lemma conv_nonml T DS f fn c v : assoc fn T = Some c -> is_ml c = false ->
+    conv T DS (S f) fn v =
+    match v with
+    | VNil => if nil_passes T chain fn then Ok VNil else Panic
+    | VNode m => match resolve T chain fn (kind m) with
+                 | Some b => run_build DS (conv T DS f) b m
+                 | None => Panic
+                 end
+    | _ => Panic
+    end.
+  Proof. intros A Hm. cbn [conv]. rewrite A. destruct c; try discriminate; reflexivity. Qed.
+
+  Lemma conv_ml T DS f fn g e v : assoc fn T = Some (FMapList g e) ->
+    conv T DS (S f) fn v =
+    match v with
+    | VNil | VList [] => Ok (if e then VNil else VList [])
+    | VList l => xs <- mapM (conv T DS f g) l ;; Ok (VList xs)
+    | _ => Panic
+    end.
+  Proof. intros A. cbn [conv]. rewrite A. reflexivity. Qed.
+
+  Theorem sim_all : forall f, SimAt f.
+  Proof.
+    induction f as [|f0 IH]; intros a b v x Hp Hok Hc; [discriminate|].
+    pose proof (fun_ok_of a b Hp) as Hfo. unfold fun_ok in Hfo.
+    destruct (assoc a Tf) as [ca|] eqn:Aa; [|cbn [conv] in Hc; rewrite Aa in Hc; discriminate].
+    destruct (assoc b Tt) as [cb|] eqn:Ab; [|destruct ca; discriminate].
+    destruct (is_ml ca) eqn:Ma.
+    - (* a list function *)
+      destruct ca as [| | |g e]; try discriminate. destruct cb as [| | |g' e']; try discriminate.
+      rewrite (conv_ml _ _ _ _ _ _ _ Aa) in Hc.
+      destruct v as [| | | | | | | |l]; try discriminate.
+      + inversion Hc; subst x. exists 1. rewrite (conv_ml _ _ _ _ _ _ _ Ab).
+        destruct e, e'; eexists; split; reflexivity.
+      + destruct l as [|v0 l].
+        * inversion Hc; subst x. exists 1. rewrite (conv_ml _ _ _ _ _ _ _ Ab).
+          destruct e, e'; eexists; split; reflexivity.
+        * destruct (mapM (conv Tf XS f0 g) (v0 :: l)) as [xs| |] eqn:E; try discriminate. cbn [bind] in Hc.
+          inversion Hc; subst x. rewrite go_ok_v_list in Hok.
+          destruct (sim_list f0 g g' IH Hfo _ _ Hok E) as (f' & ys & C & Q).
+          exists (S f'). rewrite (conv_ml _ _ _ _ _ _ _ Ab).
+          pose proof (mapM_length _ _ _ E) as L1. pose proof (mapM_length _ _ _ C) as L2.
+          destruct xs as [|x0 xs]; try discriminate. destruct ys as [|y0 ys]; try discriminate.
+          rewrite C. cbn [bind]. eexists. split; [reflexivity|].
+          rewrite strip_v_list. cbn [map] in *. rewrite !canon_v_cons. f_equal. exact Q.
+    - (* a node function *)
+      assert (Mb : is_ml cb = false) by (destruct ca, cb; try discriminate; reflexivity).
+      assert (Hfo' : implb (nil_passes Tf chain a) (nil_passes Tt chain b) &&
+                     forallb (fun ksf =>
+                                match resolve Tf chain a (fst ksf) with
+                                | None => true
+                                | Some b1 => match resolve Tt chain b (b_kind b1) with
+                                             | None => false
+                                             | Some b2 => build_pair_ok P Tf XS GS (fst ksf) (snd ksf) b1 b2
+                                             end
+                                end) GS = true)
+        by (destruct ca, cb; try discriminate; exact Hfo).
+      clear Hfo. apply andb_prop in Hfo' as [Hnil Hall].
+      rewrite (conv_nonml _ _ _ _ _ _ Aa Ma) in Hc.
+      destruct v as [| | | | | |m| |]; try discriminate.
+      + (* nil *)
+        destruct (nil_passes Tf chain a); [|discriminate]. inversion Hc; subst x.
+        cbn [implb] in Hnil. exists 1. rewrite (conv_nonml _ _ _ _ _ _ Ab Mb), Hnil. eexists; split; reflexivity.
+      + (* a node *)
+        destruct (resolve Tf chain a (kind m)) as [b1|] eqn:R1; [|discriminate].
+        change (go_ok GS m = true) in Hok.
+        assert (Hnm : names_ok GS m = true).
+        { destruct m as [i k fs]. rewrite go_ok_node in Hok. now apply andb_prop in Hok as [H _]. }
+        pose proof Hnm as Hnm'. unfold names_ok in Hnm'.
+        destruct (assoc (kind m) GS) as [gsf|] eqn:Ag; [|discriminate].
+        rewrite forallb_forall in Hall. specialize (Hall _ (assoc_In _ _ _ Ag)). cbn [fst snd] in Hall.
+        rewrite R1 in Hall.
+        destruct (resolve Tt chain b (b_kind b1)) as [b2|] eqn:R2; [|discriminate].
+        unfold run_build in Hc.
+        destruct (run_sets XS (conv Tf XS f0) m (b_sets b1)) as [vs| |] eqn:Evs; try discriminate. cbn [bind] in Hc.
+        destruct (mk_node XS (b_kind b1) vs) as [r| |] eqn:Emk; try discriminate. cbn [bind] in Hc.
+        inversion Hc; subst x.
+        destruct (mk_node_eq _ _ _ _ Emk) as (xsf & Axs & Er).
+        destruct (sim_build f0 IH m Hok b1 vs Evs xsf Axs gsf Ag b2 Hall Hnm) as (f' & y & C & Q).
+        exists (S f'), y. split; [|exact Q].
+        rewrite (conv_nonml _ _ _ _ _ _ Ab Mb). subst r. cbn [kind]. rewrite R2. exact C.
+  Qed.
 End Sim.
+
+(* ------------------------------------------------------------------ the round trip of a file *)
+
+Theorem roundtrip_canon P Tf Tt XS GS :
+  tables_preserve P Tf Tt XS GS = true ->
+  forall fuel t x, go_ok GS t = true ->
+    conv Tf XS fuel "ASTFile" (VNode t) = Ok x ->
+    exists fuel' y, conv Tt GS fuel' "ASTFile" x = Ok y /\ canon_v y = VNode (canon (strip GS t)).
+Proof.
+  unfold tables_preserve. intros H fuel t x Hok Hc. apply andb_prop in H as [Hp HP].
+  destruct (sim_all P Tf Tt XS GS HP fuel _ _ (VNode t) _ Hp Hok Hc) as (f' & y & C & Q). eauto.
+Qed.
